@@ -70,6 +70,10 @@ def cases(tier, seed, rnd):
     for mask in ('all', 'first', 'slice', 'none'):
         for shape in ((), (2,), (2, 2)):
             cs.append(dict(k='ldr', mask=mask, shape=shape))
+            if shape != () and mask != 'none':
+                # the rule is used in a constraint first, ANOTHER random variable is declared afterwards: the tables
+                # returned by get(z) are laid out for the number of random variables known at query time
+                cs.append(dict(k='ldr', mask=mask, shape=shape, late=True))
     # (e) dro read-back
     for ns, labels in ((2, None), (3, None), (3, ['a', 'b', 'c']), (4, None)):
         if ns == 4 and tier == 'quick':
@@ -468,14 +472,25 @@ def run_ldr(case, ses):
             else:
                 y[0].adapt(z1[1])
                 y.adapt(z2)
-        m.minmax(pad.sum(), z1 >= -1, z1 <= 1, z2 >= 0, z2 <= 1)
-        m.st(y >= -5, y <= 5)
+        late = bool(case.get('late'))
+        zs = [z1, z2]
+        if late:
+            m.st(y >= -5)
+            ya = y.to_affine()
+            u = m.rvar(2)
+            zs.append(u)
+            m.minmax(pad.sum(), z1 >= -1, z1 <= 1, z2 >= 0, z2 <= 1, u >= 0, u <= 1)
+            m.st(y <= 5, pad[0] >= u.sum())
+        else:
+            m.minmax(pad.sum(), z1 >= -1, z1 <= 1, z2 >= 0, z2 <= 1)
+            m.st(y >= -5, y <= 5)
         f = m.do_math()
     ses.stats.programs += 1
     n = f.linear.shape[1]
     X = inject(m, n)
-    label = 'ldr%s-%s' % (shape, mask)
-    ya = y.to_affine()
+    label = 'ldr%s-%s%s' % (shape, mask, '-late-rvar' if late else '')
+    if not late:
+        ya = y.to_affine()
     from rsome.lp import RoAffine
     inter = ya.affine if isinstance(ya, RoAffine) else ya
     want = X[onehot_cols(inter)]
@@ -491,7 +506,7 @@ def run_ldr(case, ses):
     m.solution = sol
     R = sp.csr_matrix(ya.raffine.linear).toarray()          # rows (entry, component) -> coefficient column
     nr = ya.raffine.shape[1]
-    for z in (z1, z2):
+    for z in zs:
         ses.stats.obligations += 1
         ses.stats.kinds['ldr-coefficients(sentinel)'] = ses.stats.kinds.get('ldr-coefficients(sentinel)', 0) + 1
         got = np.array(y.get(z), dtype=float).reshape(y.size, -1)
@@ -501,7 +516,7 @@ def run_ldr(case, ses):
                 row = R[e * nr + zc] if zc < nr else np.zeros(R.shape[1])
                 nz = np.nonzero(row)[0]
                 g = got[e, jj]
-                if y.depend[e, zc]:
+                if zc < y.depend.shape[1] and y.depend[e, zc]:
                     ok = ok and len(nz) == 1 and abs(g - (nz[0] + 0.25)) < 1e-9
                 else:
                     ok = ok and np.isnan(g) and len(nz) == 0
